@@ -13,7 +13,7 @@ except ImportError:
 
 import contextlib
 from collections import deque
-from errno import EINTR, EWOULDBLOCK
+from errno import EINTR, ENOBUFS, EWOULDBLOCK
 from os import read as fd_read, write as fd_write
 from sys import getdefaultencoding
 
@@ -173,7 +173,7 @@ class File(Component):
             if nbytes < len(data):
                 self._buffer.appendleft(data[nbytes:])
         except OSError as e:
-            if e.args[0] in (EWOULDBLOCK, EINTR):
+            if e.args[0] in (EWOULDBLOCK, EINTR, ENOBUFS):
                 # transient: nothing was written, try again later
                 self._buffer.appendleft(data)
                 return
